@@ -561,7 +561,7 @@ func mutateSSHPub(rng *rand.Rand, b []byte, seeds [][]byte, toks []string) []byt
 			off := 0
 			for rng.Intn(2) == 0 && off+4 <= len(blob) {
 				n := int(blob[off])<<24 | int(blob[off+1])<<16 | int(blob[off+2])<<8 | int(blob[off+3])
-				if n < 0 || off+4+n+4 > len(blob) {
+				if n < 0 || n > len(blob)-off-8 {
 					break
 				}
 				off += 4 + n
